@@ -21,19 +21,19 @@ import (
 
 // ---- catalogue ----
 
-type ObjA struct {
+type A struct {
 	Id  int64
 	Org int64
 }
-type ObjB struct {
+type B struct {
 	Id  int64
 	Org int64
 }
-type ObjC struct {
+type C struct {
 	Id  int64
 	Org int64
 }
-type ObjD struct {
+type D struct {
 	Id  int64
 	Org int64
 }
@@ -67,19 +67,19 @@ type KD2 struct {
 
 type UAB struct {
 	schemabuilder.Union
-	*ObjA
-	*ObjB
+	*A
+	*B
 }
 type UBC struct {
 	schemabuilder.Union
-	*ObjB
-	*ObjC
+	*B
+	*C
 }
 type UABC struct {
 	schemabuilder.Union
-	*ObjA
-	*ObjB
-	*ObjC
+	*A
+	*B
+	*C
 }
 
 // UAB2 is a second Go type for a union that a later version widens: registered under the GraphQL name
@@ -96,7 +96,7 @@ type Req struct {
 }
 
 var ObjTypes = map[string]reflect.Type{
-	"A": reflect.TypeOf(ObjA{}), "B": reflect.TypeOf(ObjB{}), "C": reflect.TypeOf(ObjC{}), "D": reflect.TypeOf(ObjD{}),
+	"A": reflect.TypeOf(A{}), "B": reflect.TypeOf(B{}), "C": reflect.TypeOf(C{}), "D": reflect.TypeOf(D{}),
 }
 var ObjNames = []string{"A", "B", "C", "D"}
 var keyTypes = map[string][2]reflect.Type{
@@ -575,3 +575,106 @@ func Complete(svc *Service, variant func(obj string) int) {
 	}
 	sort.SliceStable(svc.Objects, func(i, j int) bool { return svc.Objects[i].Name < svc.Objects[j].Name })
 }
+
+// CanonArgsFromJSON renders query arguments (JSON values as thunder's parser produces them: float64 numbers,
+// enum names as strings) exactly as the resolvers of Build see them (canonArgs of the parsed argument struct).
+func CanonArgsFromJSON(args []Arg, values map[string]interface{}) (string, error) {
+	if len(args) == 0 {
+		return "", nil
+	}
+	t := argsType(args)
+	v := reflect.New(t).Elem()
+	for i, a := range args {
+		raw, ok := values[GqlName(a.Name)]
+		if !ok || raw == nil {
+			if !a.Opt {
+				return "", fmt.Errorf("missing required argument %s", GqlName(a.Name))
+			}
+			continue
+		}
+		fv := v.Field(i)
+		set := func(dst reflect.Value, x interface{}) error {
+			switch a.Kind {
+			case "int":
+				f, ok := x.(float64)
+				if !ok {
+					return fmt.Errorf("not a number")
+				}
+				dst.SetInt(int64(f))
+			case "str":
+				s, ok := x.(string)
+				if !ok {
+					return fmt.Errorf("not a string")
+				}
+				dst.SetString(s)
+			case "bool":
+				b, ok := x.(bool)
+				if !ok {
+					return fmt.Errorf("not a bool")
+				}
+				dst.SetBool(b)
+			case "enum":
+				s, ok := x.(string)
+				if !ok {
+					return fmt.Errorf("not an enum")
+				}
+				dst.SetInt(int64(colorIndex[s]))
+			case "filter":
+				m, ok := x.(map[string]interface{})
+				if !ok {
+					return fmt.Errorf("not an object")
+				}
+				var f Filter
+				if n, ok := m["min"].(float64); ok {
+					k := int64(n)
+					f.Min = &k
+				}
+				if s, ok := m["tag"].(string); ok {
+					f.Tag = &s
+				}
+				dst.Set(reflect.ValueOf(f))
+			case "req":
+				m, ok := x.(map[string]interface{})
+				if !ok {
+					return fmt.Errorf("not an object")
+				}
+				var q Req
+				n, ok := m["n"].(float64)
+				if !ok {
+					return fmt.Errorf("missing n")
+				}
+				q.N = int64(n)
+				if s, ok := m["s"].(string); ok {
+					q.S = &s
+				}
+				dst.Set(reflect.ValueOf(q))
+			}
+			return nil
+		}
+		target := fv
+		if a.Opt {
+			p := reflect.New(fv.Type().Elem())
+			fv.Set(p)
+			target = p.Elem()
+		}
+		if a.List {
+			l, ok := raw.([]interface{})
+			if !ok {
+				return "", fmt.Errorf("not a list")
+			}
+			s := reflect.MakeSlice(target.Type(), len(l), len(l))
+			for j, e := range l {
+				if err := set(s.Index(j), e); err != nil {
+					return "", err
+				}
+			}
+			target.Set(s)
+		} else if err := set(target, raw); err != nil {
+			return "", err
+		}
+	}
+	return canonArgs(v), nil
+}
+
+// ColorValue is how thunder renders an enum result: the underlying Go value.
+func ColorValue(name string) int64 { return int64(colorIndex[name]) }
